@@ -397,6 +397,11 @@ fn search_one(x: &F, seed: u64, per: usize) -> Stats {
                         viol("residue-ok", &x, &ident, &input, &e);
                     }
                 }
+                Err(e) if e.contains("Cannot unreshape") => {
+                    // a reshape that drops or repeats elements selects no part of x: outside the law
+                    st.outside += 1;
+                    continue;
+                }
                 Err(e) => viol("get-put", &x, &ident, &input, &format!("⍜F∘ fails where F succeeds (F x = {}): {e}", show(&fx))),
             }
             // (2) the index-array oracle
